@@ -403,6 +403,25 @@ def converter(ctx):
                 ctx.undecided('C06.S5', 'adjusted open/close replace open/close in that order', fn.site(), 'no column renaming of the recognised form')
         else:
             ctx.require(not adj, 'C06.S5', 'no adjustment when adjust_prices is off', fn.site(), key='C06.S5|no-adjust')
+        # the open/close frame written out column by column - pd.DataFrame({'Open': o, 'Close': c}): which columns of the bar frame they are
+        built = [s_ for t_ in all_terms_of(p) for s_ in T.subterms(t_) if s_[0] == 'call' and s_[1] == ('ext', 'pandas.DataFrame') and len(s_[2]) == 1 and s_[2][0][0] == 'dict'
+                 and {k_ for k_, _ in s_[2][0][1]} == {('str', 'Open'), ('str', 'Close')}]
+        built = [b_ for i_, b_ in enumerate(built) if b_ not in built[:i_]]
+        if len(built) == 1:
+            from ..lib import read_marker
+            cd_ = dict(built[0][2][0][1])
+            o_, c_ = cd_[('str', 'Open')], cd_[('str', 'Close')]
+            fr_ = c_[1] if c_[0] == 'sub' and c_[2][0] == 'str' else None
+            what_ = 'the open/close frame holds %s' % ('(adjusted close / close) x open and the adjusted close' if adjusting else 'the bar\'s own open and close')
+            if fr_ is None:
+                ctx.undecided('C06.S5', what_ + ' [%s]' % tag, fn.site(), 'Close column is %s' % fmt(c_)[:100])
+            else:
+                col = lambda name_: ('sub', fr_, ('str', name_))
+                if adjusting:
+                    good = c_ == col('Adj Close') and T.teq(o_, T.t_mul(T.t_div(col('Adj Close'), col('Close')), col('Open')))
+                else:
+                    good = c_ == col('Close') and o_ == col('Open')
+                ctx.require(good, 'C06.S5', what_ + ' [%s]' % tag, fn.site(), '%sOpen: %s; Close: %s' % (read_marker(ctx, p), fmt(o_)[:120], fmt(c_)[:80]), key='C06.S5|columns')
         ctx.sample({'rule': 'C06.S3', 'path': tag, 'pipeline': names})
     # the converter is applied to every loaded frame, once, in __init__
     # the per-asset quote data the accessors were seen to query (the frames dict, or whatever field replaced it) is built at construction and never rebound
